@@ -29,31 +29,6 @@ klass('QueueError', ['SlimtaError'], module=M)
 klass('Envelope', fields={'sender': 'Opt[Str]', 'recipients': 'List[Str]'})
 
 
-def _envelope_copy(st, args, kw):
-    """Envelope.copy(new_rcpts=None): deep copy (assumed contract of copy.deepcopy: structurally
-    equal, shares no mutable object); when new_rcpts is truthy the copy's `recipients` IS that object."""
-    self_v = args[0]
-    new_rcpts = args[1] if len(args) > 1 else kw.get('new_rcpts')
-    E.check_or_raise(st, self_v.z != 0, 'AttributeError')
-    ref = st.new_ref('Envelope')
-    res = Val(T.TRef('Envelope'), ref)
-    st.write_field(ref, 'Envelope', 'sender', st.read_field(self_v.z, 'Envelope', 'sender'))
-    old_r = st.read_field(self_v.z, 'Envelope', 'recipients')
-    et = old_r.t.args[0]
-    # deep copy of the recipients list (a fresh list object with equal contents)
-    cp = st.new_ref('list')
-    st.assume(z3.Implies(old_r.z != 0, z3.BoolVal(True)))
-    st.list_store(cp, et, st.list_seq(old_r.z, et))
-    st.write_field(ref, 'Envelope', 'recipients', Val(old_r.t, cp))
-    if new_rcpts is not None and new_rcpts.t.kind != 'none':
-        if st.branch(E.truthy(st, new_rcpts)):
-            st.write_field(ref, 'Envelope', 'recipients', st.coerce(new_rcpts, old_r.t))
-    return res
-
-
-extern('Envelope.copy', model=_envelope_copy,
-       notes='Envelope.copy: deepcopy contract (fresh object graph, equal values); recipients replaced by the argument object when truthy')
-
 klass('Bounce', ['Envelope'])
 
 # ---------------------------------------------------------------------------- reference store RS
